@@ -143,3 +143,58 @@ contract(f"{PB}::PengBaoPublicData.check", "range-check.requires-positive-respon
          covers=["result == True", "result == False"],
          note="both responses must be strictly positive (a value outside [a, b] yields a non-positive one) and all three Boudot "
               "proofs are consulted")
+
+# the same check in the exponent model of the group generated by g and h: every element is g^eg * h^eh (ghost fields eg, eh),
+# multiplication adds exponents, division subtracts, intpow multiplies them, and two elements are equal iff their exponents are
+# (the discrete-log assumption the scheme rests on: nobody can relate g and h).  Accepting then PINS c1 and c2 to the verifier's
+# own a and b:  c1 = c / g^(a-1),  c2 = g^(b+1) / c  - a proof for a shifted window of the same width must not pass.
+GE = OBJ(f"{V}::FP2Value", eg=INT, eh=INT)
+GE_G = OBJ(f"{V}::FP2Value", eg=EXPR("1"), eh=EXPR("0"))
+GE_H = OBJ(f"{V}::FP2Value", eg=EXPR("0"), eh=EXPR("1"))
+contract(f"{PB}::PengBaoPublicData.check", "range-check.binds-commitments-to-the-verifiers-own-bounds",
+         vars={"g": GE_G, "h": GE_H, "c": GE, "c1": GE, "c2": GE,
+               "self": OBJ(f"{PB}::PengBaoPublicData", PK=OBJ("ipv8/attestation/wallet/primitives/structs.py::BonehPublicKey", p=INT, g=EXPR("g"), h=EXPR("h")),
+                           bitspace=INT, el=CHK, sqr1=CHK, sqr2=CHK,
+                           commitment=OBJ(f"{PB}::PengBaoCommitment", c=EXPR("c"), c1=EXPR("c1"), c2=EXPR("c2"), ca=GE, ca1=GE, ca2=GE,
+                                          ca3=GE, caa=GE)),
+               "a": INT, "b": INT, "s": INT, "t": INT, "x": INT, "y": INT, "u": INT, "v": INT},
+         call="self.check(a, b, s, t, x, y, u, v)", raises=[],
+         stubs={f"{V}::FP2Value.intpow": {"returns": GE, "ensures": ["result.eg == self.eg * power", "result.eh == self.eh * power"],
+                                          "note": "exponent model: (g^i h^j)^n = g^(i n) h^(j n); intpow itself has its own contracts above"},
+                f"{V}::FP2Value.__mul__": {"returns": GE, "ensures": ["result.eg == self.eg + other.eg", "result.eh == self.eh + other.eh"],
+                                           "note": "exponent model of multiplication; __mul__ itself: own contract mul==spec"},
+                f"{V}::FP2Value.__floordiv__": {"returns": GE, "ensures": ["result.eg == self.eg - other.eg", "result.eh == self.eh - other.eh"],
+                                                "note": "exponent model of division; __floordiv__ itself: own contract div==spec"},
+                f"{V}::FP2Value.__eq__": {"returns": "bool", "ensures": ["result == (self.eg == other.eg and self.eh == other.eh)"],
+                                          "note": "g and h are independent generators (discrete-log assumption of the scheme)"}},
+         ensures=["not result or (c1.eg == c.eg - (a - 1) and c1.eh == c.eh)",
+                  "not result or (c2.eg == (b + 1) - c.eg and c2.eh == -c.eh)"],
+         covers=["result == True", "result == False"],
+         note="accepting ties the two shifted commitments to the verifier's OWN bounds a and b, not merely to each other or to the "
+              "width b - a")
+
+# range proofs, completeness at the boundary: every challenge an honest verifier can produce (_safe_rndint: >= LARGE_INTEGER) is answered
+# honestly by the prover; only smaller ones (a cheating verifier fishing for the value) get random garbage, and the secret is not touched
+PBA = "ipv8/attestation/wallet/pengbaorange/algorithm.py"
+LARGE = EXPR(f"module_global('{PBA}', 'LARGE_INTEGER')")
+contract(f"{PBA}::_safe_rndint", "_safe_rndint.at-least-LARGE_INTEGER",
+         vars={"L": LARGE, "ks": RANGE(16, 4096), "mod": INT, "F": EXPR(f"module_global('{PBA}', '_safe_rndint')")}, requires=["mod > L"],
+         call="F(ks, mod)", raises=[], ensures=["result >= L", "0 <= result < mod"],
+         loops={f"{PBA}::_safe_rndint#0": {"invariants": ["0 <= out", "out < mod"], "havoc": {"out": INT}}},
+         note="challenges of an honest verifier are never below LARGE_INTEGER")
+contract(f"{PBA}::PengBaoRangeAlgorithm.create_challenge_response", "range.create_challenge_response.honest-iff-both-large",
+         vars={"L": LARGE, "cs": INT, "ct": INT, "x": INT, "y": INT, "u": INT, "v": INT, "challenge": BYTES,
+               "self": OBJ(f"{PBA}::PengBaoRangeAlgorithm", key_size=EXPR("32")),
+               "SK": OBJ("ipv8/attestation/wallet/primitives/structs.py::BonehPrivateKey", g=OBJ(f"{V}::FP2Value", mod=INT)),
+               "attestation": OBJ(f"{PB}::PengBaoAttestation",
+                                  privatedata=EFFECT("privatedata", generate_response={"returns": EXPR("(x, y, u, v)")}))},
+         requires=["cs >= 0", "ct >= 0"], call="self.create_challenge_response(SK, attestation, challenge)", raises=[],
+         stubs={"ipv8/attestation/wallet/primitives/structs.py::unpack_pair": {"returns": "(cs, ct, b'')", "note": "codec: own contracts above"},
+                "ipv8/attestation/wallet/primitives/structs.py::pack_pair": {"event": "pack_pair", "returns": BYTES, "note": "codec: own contracts above"},
+                f"{PBA}::_safe_rndint": {"event": "rnd", "returns": INT, "note": "own contract above"}},
+         on_effect={"generate_response": ["args == (cs, ct)", "cs >= L and ct >= L"]},
+         ensures=["(cs >= L and ct >= L) == (len(calls('generate_response')) == 1)",
+                  "implies(cs >= L and ct >= L, [e.args for e in calls('pack_pair')] == [(x, y), (u, v)] and len(calls('rnd')) == 0)",
+                  "implies(cs < L or ct < L, len(calls('rnd')) == 4)"],
+         covers=["len(calls('generate_response')) == 1", "len(calls('rnd')) == 4"],
+         note="the honest answer is given exactly for the challenges _safe_rndint can produce (both components >= LARGE_INTEGER)")
